@@ -268,6 +268,10 @@ func GetMethodReturnTypes(m *types.Func) (*types.Tuple, bool) {
 // ParseGetterReturnTypes returns the return types of the given method.
 func ParseGetterReturnTypes(m *types.Func) (ret types.Type, retError, ok bool) {
 	sig := m.Type().(*types.Signature)
+	if 0 < sig.Params().Len() && !(sig.Variadic() && sig.Params().Len() == 1) {
+		// A getter is called without arguments.
+		return
+	}
 	num := sig.Results().Len()
 	if num == 0 || 2 < num {
 		return
